@@ -32,6 +32,7 @@ type Opts struct {
 	VerbSpacing    bool // several blanks after a format verb, a blank before the closing brace
 	TrailingSpace  bool // blanks / tabs after `- statement` lines
 	Trailers       bool // Go code after the closing brace of a template, on the same line
+	UnescBlocks    bool // `!= @render X()` WITH a block of arbitrary content (compile-level checks only: what the block then prints is not specified)
 	MultiLineFrags bool // Go fragments containing a newline (finding C07/multiline)
 	SpaceIndent    bool // now and then a blank instead of the last tab of a line that is not deeper than the one before
 }
@@ -48,6 +49,7 @@ type G struct {
 
 func (g *G) pick(xs ...string) string { return xs[g.R.Intn(len(xs))] }
 func (g *G) pick2(xs ...[]string) []string { return xs[g.R.Intn(len(xs))] }
+func (g *G) pick2Ints(xs ...[][]int) [][]int { return xs[g.R.Intn(len(xs))] }
 func (g *G) chance(n int) bool       { return g.R.Intn(n) == 0 }
 
 func (g *G) strFrag() string {
@@ -291,6 +293,9 @@ func (g *G) Block(depth int) []*Node {
 		if g.O.MarkerHeavy && g.R.Intn(3) == 0 {
 			k = []int{0, 1, 1, 2, 3}[g.R.Intn(5)]
 		}
+		if g.O.Switch && g.R.Intn(4) == 0 {
+			k = 13
+		}
 		if depth <= 0 && (k == 1 || k == 4 || k == 5 || k == 9 || k == 10 || k == 13) {
 			k = 0
 		}
@@ -383,6 +388,9 @@ func (g *G) Block(depth int) []*Node {
 		case 8:
 			f := &Node{Kind: KFilter, Filter: g.pick("plain", "escaped", "preserve", "css", "javascript")}
 			nl := 1 + g.R.Intn(3)
+			if g.chance(8) {
+				nl = 0 // a filter line with no body
+			}
 			for j := 0; j < nl; j++ {
 				var ps []Part
 				ps = append(ps, Part{Static: g.pick("raw <i>", "a { b: c }", "l " + g.staticText(), "x")})
@@ -399,11 +407,18 @@ func (g *G) Block(depth int) []*Node {
 				}
 			}
 			out = append(out, f)
+			if g.O.NonASCII && g.chance(3) {
+				// the line that ends the filter starts with a rune of several bytes
+				out = append(out, &Node{Kind: KText, Parts: []Part{{Static: g.pick("été là", "日本 next", "😀 lead", "ünï")}}})
+			}
 		case 9:
 			if g.layoutsAvail > 0 && !g.inLoop {
 				r := &Node{Kind: KRender, Callee: fmt.Sprintf("L%d%s", g.R.Intn(g.layoutsAvail), Args)}
 				if g.R.Intn(3) > 0 {
 					r.Kids = g.Block(depth - 1)
+					if g.O.UnescBlocks && g.chance(3) {
+						r.Unescaped = true
+					}
 				} else if g.O.RenderHeavy && g.chance(3) {
 					r.Unescaped = true // the `!= @render` spelling (without a block: nothing in it to escape or not)
 				}
@@ -420,11 +435,18 @@ func (g *G) Block(depth int) []*Node {
 			out = append(out, &Node{Kind: KDoctype})
 		case 13:
 			if g.O.Switch {
-				c := &Node{Kind: KSwitch}
-				c.Chain = append(c.Chain, Branch{Header: "switch n0", Kids: []*Node{
-					{Kind: KIf, Chain: []Branch{{Header: "case 1", Kids: g.Block(depth - 2)}, {Header: "default", Kids: g.Block(depth - 2)}}},
-				}})
-				_ = c // switch/case nesting is documented only by example; kept out of the default stream
+				c := &Node{Kind: KSwitch, Chain: []Branch{{Header: "switch n0", Braces: g.chance(3)}}}
+				for _, vals := range g.pick2Ints([][]int{{1}, {2, 3}}, [][]int{{0}, {1, 2}}, [][]int{{3}}, [][]int{{0, 1}, {2}, {3}}) {
+					hs := make([]string, len(vals))
+					for k, v := range vals {
+						hs[k] = fmt.Sprint(v)
+					}
+					c.Chain = append(c.Chain, Branch{Header: "case " + strings.Join(hs, ", ") + ":", CaseVals: vals, Kids: g.Block(depth - 2)})
+				}
+				if g.chance(2) {
+					c.Chain = append(c.Chain, Branch{Header: "default:", Default: true, Kids: g.Block(depth - 2)})
+				}
+				out = append(out, c)
 			}
 		case 14:
 			g.nVar++
@@ -434,6 +456,10 @@ func (g *G) Block(depth int) []*Node {
 			out = append(out, &Node{Kind: KScript, Expr: name})
 		case 15:
 			out = append(out, &Node{Kind: KRubyComment, Code: g.pick("note", "todo: x")})
+			if g.O.NonASCII && g.chance(2) {
+				// the line after the comment, at the comment's own level, starts with a rune of several bytes
+				out = append(out, &Node{Kind: KText, Parts: []Part{{Static: g.pick("été là", "日本 next", "😀 lead", "ünï")}}})
+			}
 		}
 	}
 	if g.O.BlankLines && g.chance(3) {
